@@ -104,7 +104,7 @@ func VerifC18_FailClosed() {
 		if urls[i] != "" {
 			ann[ingtypes.BackAuthURL] = urls[i]
 		}
-		places[i] = zzC18Placements[nd.Choice("placement", len(zzC18Placements))]
+		places[i] = zzC18Placements[nd.Choice("placement", nd.Param("PLACEMENTS", len(zzC18Placements)))]
 		if places[i] != "" {
 			ann[ingtypes.BackAuthExternalPlacement] = places[i]
 		}
